@@ -1,0 +1,178 @@
+//go:build verif
+
+// Contracts for the deductive verifier in /verif (govc). Comment-only file: with the
+// "verif" build tag off it is invisible to the compiler.
+package authz
+
+//@ import oidcv1 "github.com/istio-ecosystem/authservice/config/gen/go/v1/oidc"
+//@ import envoy "github.com/envoyproxy/go-control-plane/envoy/service/auth/v3"
+//@ import corev3 "github.com/envoyproxy/go-control-plane/envoy/config/core/v3"
+//@ import typev3 "github.com/envoyproxy/go-control-plane/envoy/type/v3"
+//@ import oidc "github.com/istio-ecosystem/authservice/internal/oidc"
+
+// The standard headers of every denial are the two no-cache directives (C13). Established by the
+// package initialiser; no function under contract writes the variable or the objects it refers to.
+//@ invariant stdhdrs: len(deref(standardResponseHeaders)) == 2 && HdrIs(deref(standardResponseHeaders)[0], "cache-control", "no-cache") && HdrIs(deref(standardResponseHeaders)[1], "pragma", "no-cache")
+
+// ---------------------------------------------------------------------------------------------
+// response builders
+// ---------------------------------------------------------------------------------------------
+
+//@ func setDenyResponse
+//@   requires resp_nonnil: resp != nil
+//@   requires code_not_ok: code != 0
+//@   modifies resp.HttpResponse, resp.Status
+//@   ensures  denied: IsDenied(resp) && DeniedOf(resp) == deny
+//@   ensures  status: resp.Status != nil && fresh(resp.Status) && resp.Status.Code == code && resp.Status.Message == ""
+
+//@ func newDenyResponse
+//@   ensures  fresh: result != nil && fresh(result)
+//@   ensures  shape: result.Status == nil && result.Body == ""
+//@   ensures  nocache: len(result.Headers) == 2 && StdHdrs(result.Headers)
+
+//@ func setRedirect
+//@   requires deny != nil
+//@   modifies deny.Status, deny.Headers
+//@   ensures  status: deny.Status != nil && fresh(deny.Status) && deny.Status.Code == 302
+//@   ensures  hdr: AppendedHdr(old(deny.Headers), deny.Headers, "location", location)
+
+//@ func setSetCookieHeader
+//@   requires deny != nil
+//@   modifies deny.Headers
+//@   ensures  hdr: AppendedHdr(old(deny.Headers), deny.Headers, "set-cookie", cookie)
+
+//@ func newSessionErrorResponse
+//@   ensures  fresh: result != nil && fresh(result)
+//@   ensures  shape: result.Status == nil && result.Body == "There was an error accessing your session data. Try again later." && len(result.Headers) == 0
+
+//@ func encodeHeaderValue
+//@   ensures  enc: result == ite(preamble == "", value, preamble ++ " " ++ value)
+
+//@ func getCookieName
+//@   ensures  name: result == ite(config.GetCookieNamePrefix() == "", "__Host-authservice-session-id-cookie", "__Host-" ++ config.GetCookieNamePrefix() ++ "-authservice-session-id-cookie")
+//@   ensures  host_prefix: HasPrefix(result, "__Host-")
+
+//@ func isValidIDPNewTokensResponse
+//@   requires log != nil && tokenResponse != nil
+//@   ensures  v: result == (FoldEq(tokenResponse.TokenType, "Bearer") && tokenResponse.ExpiresIn >= 0 && !(config.GetAccessToken() != nil && tokenResponse.AccessToken == ""))
+
+//@ func isValidIDPRefreshTokenResponse
+//@   requires log != nil && tokenResponse != nil
+//@   ensures  v: result == (FoldEq(tokenResponse.TokenType, "Bearer") && tokenResponse.ExpiresIn >= 0)
+
+// ---------------------------------------------------------------------------------------------
+// validation
+// ---------------------------------------------------------------------------------------------
+
+//@ func (*oidcHandler).isValidIDToken
+//@   requires wf: HandlerOK(o) && log != nil
+//@   ensures  code_ok: result0 == (result1 == 0)
+//@   ensures  valid: result0 ==> Validated(o.config, idTokenString)
+//@   ensures  nonce_required: result0 && isNonceRequired ==> NonceIs(idTokenString, expectedNonce)
+//@   ensures  nonce_optional: result0 && !isNonceRequired && JwtHasClaim(idTokenString, "nonce") && expectedNonce != "" && !NonceIs(idTokenString, "") ==> NonceIs(idTokenString, expectedNonce)
+//@   loop 1 invariant noaud: forall j int :: 0 <= j && j <= rangeindex ==> JwtAud(idTokenString, j) != o.config.GetClientId()
+
+//@ func (*oidcHandler).areRequiredTokensExpired
+//@   requires wf: HandlerOK(o) && log != nil && tokens != nil
+//@   modifies ghost Clk
+//@   ensures  parses: (err == nil) == JwtParses(tokens.IDToken)
+//@   ensures  expired: err == nil ==> result == TokensExpired(o.config, TokOf(tokens), Clk) && Clk >= old(Clk)
+//@   ensures  on_err: err != nil ==> !result && Clk == old(Clk)
+
+// ---------------------------------------------------------------------------------------------
+// the token endpoint
+// ---------------------------------------------------------------------------------------------
+
+//@ func performIDPRequest
+//@   requires wf: log != nil && client != nil
+//@   modifies ghost IdP
+//@   ensures  count: IdP.n == old(IdP.n) + 1 || (IdP == old(IdP) && result1 != 0)
+//@   ensures  sent: IdP.n == old(IdP.n) + 1 ==> IdP.uri == uri && IdP.hdrs == headers && SentForm(IdP.sent, form)
+//@   ensures  ok_nonnil: result1 == 0 ==> result0 != nil
+//@   ensures  decoded: result0 != nil ==> result1 == 0 && IdP.n == old(IdP.n) + 1 && IdP.status == 200 && fresh(result0) && BodyIs(result0, IdP.body)
+//@   ensures  fail: result1 != 0 ==> result0 == nil
+
+// ---------------------------------------------------------------------------------------------
+// request classification
+// ---------------------------------------------------------------------------------------------
+
+//@ func getSessionIDFromCookie
+//@   requires log != nil
+//@   ensures  sid: result == SidOf(headers, config)
+//@   loop 1 invariant notyet: forall k string :: $visited[k] ==> k != CookieNameOf(config)
+
+//@ func matchesLogoutPath
+//@   requires log != nil
+//@   ensures  logout: result == IsLogoutReq(config, httpReq)
+
+//@ func matchesCallbackPath
+//@   requires log != nil && UrlParses(config.GetCallbackUri())
+//@   ensures  callback: result == IsCallbackReq(config, httpReq)
+
+// ---------------------------------------------------------------------------------------------
+// OK answers
+// ---------------------------------------------------------------------------------------------
+
+//@ func (*oidcHandler).encodeTokensToHeaders
+//@   requires wf: HandlerOK(o) && tokens != nil
+//@   ensures  fresh: result != nil && fresh(result)
+//@   ensures  keys: forall k string :: mapHas(result, k) == (k == IdHdr(o.config) || (FwdAccess(o.config, tokens.AccessToken) && k == AccHdr(o.config)))
+//@   ensures  access: FwdAccess(o.config, tokens.AccessToken) ==> result[AccHdr(o.config)] == Enc(o.config.GetAccessToken().GetPreamble(), tokens.AccessToken)
+//@   ensures  id: !(FwdAccess(o.config, tokens.AccessToken) && AccHdr(o.config) == IdHdr(o.config)) ==> result[IdHdr(o.config)] == Enc(o.config.GetIdToken().GetPreamble(), tokens.IDToken)
+
+//@ func (*oidcHandler).allowResponse
+//@   requires wf: HandlerOK(o) && resp != nil && tokens != nil
+//@   modifies resp.HttpResponse, resp.Status, resp.GetOkResponse().Headers
+//@   ensures  ok: resp.Status != nil && fresh(resp.Status) && resp.Status.Code == 0 && IsOk(resp) && OkOf(resp) != nil
+
+// ---------------------------------------------------------------------------------------------
+// refresh (C11), login redirect (C05, C13), callback (C02, C04), the decision ladder (C01, C09)
+// ---------------------------------------------------------------------------------------------
+
+//@ func (*oidcHandler).refreshToken
+//@   requires wf: HandlerOK(o) && log != nil && expiredTokens != nil && o.httpClient != nil
+//@   modifies ghost IdP, ghost View, ghost Clk
+//@   ensures  count: IdP.n == old(IdP.n) + 1 || IdP == old(IdP)
+//@   ensures  request: IdP.n == old(IdP.n) + 1 ==> IdP.uri == o.config.GetTokenUri() && RefreshForm(IdP.sent, token, o.config.GetClientId(), o.config.GetClientSecret())
+//@   ensures  merged: result != nil ==> fresh(result) && IdP.n == old(IdP.n) + 1 && IdP.status == 200 && MergeOK(TokOf(result), old(TokOf(expiredTokens)), IdP.body, Clk)
+//@   ensures  validated: result != nil ==> Validated(o.config, result.IDToken)
+//@   ensures  view: OnlySid(old(View), View, StoreFor(o.sessions, o.config).pay, sessionID)
+//@   ensures  view_sid: View == old(View) || Touched(old(View)[StoreFor(o.sessions, o.config).pay][sessionID], View[StoreFor(o.sessions, o.config).pay][sessionID]) || !View[StoreFor(o.sessions, o.config).pay][sessionID].present
+//@   ensures  clock: Clk >= old(Clk)
+
+//@ func (*oidcHandler).redirectToIDP
+//@   requires wf: HandlerOK(o) && log != nil && resp != nil
+//@   requires inv: StoreInv(View, Issued)
+//@   requires presented: oldSessionID == "" || oldSessionID == Presented
+//@   modifies resp.HttpResponse, resp.Status, ghost View, ghost Issued, ghost LastSid, ghost NGen
+//@   ensures  denied: IsDenied(resp) && RespCode(resp) == 16 && DeniedOf(resp) != nil
+//@   ensures  inv: StoreInv(View, Issued)
+//@   ensures  view: OnlyTwo(old(View), View, StoreFor(o.sessions, o.config).pay, oldSessionID, LastSid)
+//@   ensures  old_sid: oldSessionID != "" ==> !View[StoreFor(o.sessions, o.config).pay][oldSessionID].present || (NGen == old(NGen) && View[StoreFor(o.sessions, o.config).pay][oldSessionID] == old(View)[StoreFor(o.sessions, o.config).pay][oldSessionID] && IsSessionError(resp))
+//@   ensures  new_sid: NGen != old(NGen) ==> NGen == old(NGen) + 1 && !old(Issued)[LastSid] && Issued == store(old(Issued), LastSid, true) && !HoldsTok(View[StoreFor(o.sessions, o.config).pay][LastSid])
+//@   ensures  no_gen: NGen == old(NGen) ==> Issued == old(Issued) && LastSid == old(LastSid) && OnlySid(old(View), View, StoreFor(o.sessions, o.config).pay, oldSessionID)
+
+//@ func (*oidcHandler).retrieveTokens
+//@   requires wf: HandlerOK(o) && log != nil && resp != nil && o.httpClient != nil
+//@   requires inv: StoreInv(View, Issued)
+//@   modifies resp.HttpResponse, resp.Status, ghost View, ghost IdP, ghost Clk
+//@   ensures  denied: IsDenied(resp) && RespCode(resp) != 0 && DeniedOf(resp) != nil
+//@   ensures  inv: StoreInv(View, Issued)
+//@   ensures  view: OnlySid(old(View), View, StoreFor(o.sessions, o.config).pay, sessionID)
+//@   ensures  count: IdP == old(IdP) || IdP.n == old(IdP.n) + 1
+//@   ensures  exchange_bound: IdP.n != old(IdP.n) ==> HoldsAuth(old(View)[StoreFor(o.sessions, o.config).pay][sessionID]) && UrlQueryGet(QueryOnly(req.GetAttributes().GetRequest().GetHttp().GetPath()), "state") == old(View)[StoreFor(o.sessions, o.config).pay][sessionID].auth.state
+//@   ensures  exchange_request: IdP.n != old(IdP.n) ==> IdP.uri == o.config.GetTokenUri() && AuthCodeForm(IdP.sent, UrlQueryGet(QueryOnly(req.GetAttributes().GetRequest().GetHttp().GetPath()), "code"), o.config.GetCallbackUri(), old(View)[StoreFor(o.sessions, o.config).pay][sessionID].auth.verifier) && BasicHdrs(IdP.hdrs, o.config.GetClientId(), o.config.GetClientSecret())
+//@   ensures  bind: HoldsTok(View[StoreFor(o.sessions, o.config).pay][sessionID]) && !(HoldsTok(old(View)[StoreFor(o.sessions, o.config).pay][sessionID]) && View[StoreFor(o.sessions, o.config).pay][sessionID].tok == old(View)[StoreFor(o.sessions, o.config).pay][sessionID].tok) ==> IdP.n == old(IdP.n) + 1 && IdP.status == 200 && LoginTok(View[StoreFor(o.sessions, o.config).pay][sessionID].tok, IdP.body) && Validated(o.config, View[StoreFor(o.sessions, o.config).pay][sessionID].tok.id) && NonceIs(View[StoreFor(o.sessions, o.config).pay][sessionID].tok.id, old(View)[StoreFor(o.sessions, o.config).pay][sessionID].auth.nonce)
+//@   ensures  consumed: HoldsTok(View[StoreFor(o.sessions, o.config).pay][sessionID]) && !(HoldsTok(old(View)[StoreFor(o.sessions, o.config).pay][sessionID]) && View[StoreFor(o.sessions, o.config).pay][sessionID].tok == old(View)[StoreFor(o.sessions, o.config).pay][sessionID].tok) ==> !HoldsAuth(View[StoreFor(o.sessions, o.config).pay][sessionID])
+
+//@ func (*oidcHandler).Process
+//@   requires wf: HandlerOK(o) && o.httpClient != nil && resp != nil && UrlParses(o.config.GetCallbackUri())
+//@   requires inv: StoreInv(View, Issued)
+//@   requires presented: Presented == SidOf(req.GetAttributes().GetRequest().GetHttp().GetHeaders(), o.config)
+//@   modifies resp.HttpResponse, resp.Status, resp.GetOkResponse().Headers, ghost View, ghost IdP, ghost Clk, ghost Issued, ghost LastSid, ghost NGen
+//@   ensures  noerr: result == nil
+//@   ensures  status: resp.Status != nil
+//@   ensures  inv: StoreInv(View, Issued)
+//@   ensures  ok_justified: RespCode(resp) == 0 ==> req.GetAttributes().GetRequest().GetHttp() != nil && Presented != "" && !IsLogoutReq(o.config, req.GetAttributes().GetRequest().GetHttp()) && !IsCallbackReq(o.config, req.GetAttributes().GetRequest().GetHttp()) && OkJustified(o.config, old(View)[StoreFor(o.sessions, o.config).pay][Presented], View[StoreFor(o.sessions, o.config).pay][Presented], old(IdP), IdP, old(Clk), Clk)
+//@   ensures  ok_body: RespCode(resp) == 0 ==> IsOk(resp)
+//@   ensures  deny_body: RespCode(resp) != 0 ==> IsDenied(resp) && DeniedOf(resp) != nil
